@@ -1,6 +1,7 @@
 import CollectionsC.Driver.Cmd
 import CollectionsC.Spec.QueueSpec
 import CollectionsC.Model.Queue
+import CollectionsC.Proofs.DequeBulk
 /-! Line-protocol driver for the queue adapter: two object slots, one iterator, one zip iterator.
 The spec side keeps the ideal FIFO (oldest first) and prints its iteration view. -/
 -- container: queue
@@ -143,12 +144,22 @@ def step (s : Sess) (c : Cmd) : Sess × String × String :=
           fin s' (hdOut2 sp.1 sp.2.1 noout) (hdOut2 r.1 r.2.1 noout)
       | _, _, _, _ => early s m "nosession"
     | _, _ => early s m "nosession"
-  | "it_next" | "it_replace" =>
+  | "it_next" | "it_replace" | "it_sweep" =>
     match s.it, s.sit with
     | some (ki, it), some (_, cur) =>
       match getM s ki, getS s ki with
       | some q, some f =>
-        if c.op == "it_next" then
+        if c.op == "it_sweep" then
+          -- `n` × iter_next, stopping at the end: count and checksum of the values yielded
+          let kk := c.nat "n" 1
+          let r := Deque.iterSweepRun q.d kk it m
+          let v := f.view
+          let sv := (v.drop cur.pos).take kk
+          let sst : Stat := if kk ≤ v.length - cur.pos then .ok else .iterEnd
+          let cur' : Cur := if sv.isEmpty then cur else { pos := cur.pos + sv.length, removed := false }
+          fin { s with mem := r.2.2.2, it := some (ki, r.2.2.1), sit := some (ki, cur') }
+            s!"{fmtStat sst} out={sv.length} sum={Deque.valSum sv}" s!"{fmtStat r.2.1} out={r.1.length} sum={Deque.valSum r.1}"
+        else if c.op == "it_next" then
           let r := Queue.iterNext it q m
           let sp := Spec.DequeSpec.curNext f.view cur
           fin { s with mem := r.2.2.2, it := some (ki, r.2.2.1), sit := some (ki, sp.2.2) }
@@ -180,6 +191,13 @@ def step (s : Sess) (c : Cmd) : Sess × String × String :=
       let r := q.enqueue a0 m
       let sp : Stat × Fifo := if refused then (.errAlloc, f) else (.ok, f.enqueue a0)
       fin (setS (setM { s with mem := r.2.2 } k (some r.2.1)) k (some sp.2)) (fmtStat sp.1) (fmtStat r.1)
+    | "fill" =>
+      -- `n` × enqueue (= add_first on the inner deque) of fixed values, stopping at the first refusal
+      let vals := Deque.fillVals (c.nat "n" 0) (c.nat "seed" 1)
+      let r := Deque.fillRun true (vals.length + 1) q.d m vals
+      let sp : Fifo := ⟨f.items ++ vals.take (vals.length - r.2.2.2)⟩
+      fin (setS (setM { s with mem := r.2.2.1 } k (some { q with d := r.2.1 })) k (some sp))
+        (fmtStat (if refused then .errAlloc else .ok)) (fmtStat r.1)
     | "poll" =>
       let r := q.poll m
       let sp := f.poll
